@@ -280,7 +280,52 @@ def guard_for(prog, fn, block, A, B, conds=None):
                 continue
             if establishes_ge(c, edge, A, B) and stable_between(fn, tgt, block, vs):
                 return (sb, edge, c)
+            if edge and stride_guard(prog, fn, c, A, B, block) and stable_between(fn, tgt, block, vs):
+                return (sb, edge, c)
     return None
+
+
+def pre_loop_value(prog, fn, v, at=None):
+    """(canon of the value variable v is initialised with, [blocks of `v = v + C` updates], C) if v is only ever
+    initialised by one plain copy and otherwise updated by adding one constant stride / subtracting it back."""
+    cn = Canon(prog, fn)
+    init, adds, stride = None, [], None
+    for (b, kind, payload) in fn.defs().get(v, []):
+        if at is not None and not cn.tr.reaches(b, at):
+            continue      # a later update cannot influence the value at the use
+        if kind != "assign" or payload["lhs"]["p"] or payload["rhs"]["rv"] != "use":
+            return None
+        c = cn.op(payload["rhs"]["a"], b)
+        if c[0] == "bin" and c[1] in ("Add", "Sub") and c[2][0] == "var" and c[2][1] == v and c[3][0] == "c":
+            if c[1] == "Add":
+                if stride not in (None, c[3][1]):
+                    return None
+                stride = c[3][1]
+                adds.append(b)
+            continue
+        if init is not None:
+            return None
+        init = c
+    if init is None or stride is None:
+        return None
+    return init, adds, stride
+
+
+def stride_guard(prog, fn, cond, A, B, at=None):
+    """`v > w` where w is the value v started from and v is only ever advanced by += stride:
+    then v >= w + stride >= stride, so v - C is safe for C <= stride."""
+    op, X, Y = cond
+    if Y is None or B[0] != "c" or A[0] != "var":
+        return False
+    if op == "Lt":
+        X, Y, op = Y, X, "Gt"
+    if op not in ("Gt", "Ne") or not same(X, A):
+        return False
+    plv = pre_loop_value(prog, fn, A[1], at)
+    if plv is None:
+        return False
+    init, adds, stride = plv
+    return same(Y, init) and B[1] <= stride
 
 
 def sub_sites(prog, crate="abyssiniandb"):
